@@ -63,8 +63,47 @@ func (p poProc) spec(tag string) string {
 	return strings.Join([]string{tag, p.Mode, strconv.Itoa(p.NOut), strconv.Itoa(p.NErr), strconv.Itoa(p.Blk), strconv.Itoa(p.Cut), b(p.Tail), b(p.Fail)}, ":")
 }
 
+// The lines of a standard-output stream are written in [a-z0-9.], those of a standard-error stream in [A-Z:], so every
+// delivered byte can be attributed to the kind of producer it came from, also inside a line that is not a line of any stream.
 func poLine(tag, s string, i int) string {
-	return fmt.Sprintf("%s%s %07d %s", tag, s, i, strings.Repeat(s, (i*7)%53))
+	l := fmt.Sprintf("%s%s.%07d.%s", tag, s, i, strings.Repeat(s, (i*7)%53))
+	if s == "e" {
+		return poUpper(l)
+	}
+	return l
+}
+
+func poUpper(l string) string {
+	b := []byte(l)
+	for i, c := range b {
+		switch {
+		case c >= 'a' && c <= 'z':
+			b[i] = c - 'a' + 'A'
+		case c >= '0' && c <= '9':
+			b[i] = "QRSTUVWXYZ"[c-'0']
+		case c == '.':
+			b[i] = ':'
+		}
+	}
+	return string(b)
+}
+
+func poKey(tag, s string) string {
+	if s == "e" {
+		return poUpper(tag + s)
+	}
+	return tag + s
+}
+
+// 'o' for a byte of the standard-output alphabet, 'e' for one of the standard-error alphabet, 0 for anything else
+func poClass(c byte) byte {
+	switch {
+	case c >= 'a' && c <= 'z', c >= '0' && c <= '9', c == '.':
+		return 'o'
+	case c >= 'A' && c <= 'Z', c == ':':
+		return 'e'
+	}
+	return 0
 }
 
 func poEmit(f *os.File, tag, s string, n, blk, cut int, tail bool) {
@@ -174,18 +213,24 @@ type poResult struct {
 
 func poQuoteSh(s string) string { return "'" + s + "'" }
 
-// the body of one target and what it must deliver: the streams (key -> number of lines), literal lines, and for each
-// stream/literal the keys that must be complete before its first line
+// the body of one target and what it must deliver: the streams, in the order in which the body starts them, literal lines
+// (an echoed command line, a print), and for each stream/literal the keys that must be complete before its first line
+type poStream struct {
+	key, tag, s string
+	n           int
+}
+
 type poExpect struct {
-	count  map[string]int      // stream key -> lines
-	tail   map[string]bool     // stream key -> last line has no newline (same content)
-	lits   map[string]int      // literal line -> times
-	before map[string][]string // key or literal -> keys/literals that must be complete first
-	fails  bool
+	streams []poStream
+	count   map[string]int      // stream key -> lines
+	byKey   map[string]poStream // stream key -> stream
+	lits    map[string]int      // literal line -> times
+	before  map[string][]string // key or literal -> keys/literals that must be complete first
+	fails   bool
 }
 
 func poBody(self string, t poTarget) (string, *poExpect) {
-	ex := &poExpect{count: map[string]int{}, tail: map[string]bool{}, lits: map[string]int{}, before: map[string][]string{}}
+	ex := &poExpect{count: map[string]int{}, byKey: map[string]poStream{}, lits: map[string]int{}, before: map[string][]string{}}
 	var b strings.Builder
 	fmt.Fprintf(&b, "@target()\ndef %s():\n", t.Name)
 	var done []string // everything the body has completed so far
@@ -194,12 +239,14 @@ func poBody(self string, t poTarget) (string, *poExpect) {
 		argv := fmt.Sprintf("[%q, \"verif-c18-tool\", %q]", self, p.spec(tag))
 		shcmd := poQuoteSh(self) + " verif-c18-tool " + poQuoteSh(p.spec(tag))
 		var mine []string
-		add := func(key string, n int, tail bool) {
+		add := func(tag, s string, n int) {
 			if n > 0 {
-				ex.count[key] = n
-				ex.tail[key] = tail
-				ex.before[key] = append([]string{}, done...)
-				mine = append(mine, key)
+				st := poStream{poKey(tag, s), tag, s, n}
+				ex.streams = append(ex.streams, st)
+				ex.count[st.key] = n
+				ex.byKey[st.key] = st
+				ex.before[st.key] = append([]string{}, done...)
+				mine = append(mine, st.key)
 			}
 		}
 		lit := func(s string, after []string) {
@@ -214,27 +261,28 @@ func poBody(self string, t poTarget) (string, *poExpect) {
 		if p.Mode == "err" {
 			nout = 0
 		}
+		captured := fmt.Sprintf("%s captured %d bytes %d newlines", tag, poStreamBytes(tag, "o", nout), nout)
 		switch p.Builtin {
 		case "os.exec":
 			fmt.Fprintf(&b, "    os.exec(%s)\n", argv)
-			add(tag+"o", nout, p.Tail)
-			add(tag+"e", nerr, p.Tail)
+			add(tag, "o", nout)
+			add(tag, "e", nerr)
 		case "sh.exec":
 			fmt.Fprintf(&b, "    sh.exec(%q)\n", shcmd)
 			lit(shcmd, nil) // sh.exec echoes the command line first
 			done = append(done, shcmd)
-			add(tag+"o", nout, p.Tail)
-			add(tag+"e", nerr, p.Tail)
+			add(tag, "o", nout)
+			add(tag, "e", nerr)
 		case "os.output": // standard output is captured and returned, standard error is the target's output
 			fmt.Fprintf(&b, "    r%d = os.output(%s)\n    print(\"%s captured %%d bytes %%d newlines\" %% (len(r%d), r%d.count(\"\\n\")))\n", k, argv, tag, k, k)
-			add(tag+"e", nerr, false)
-			lit(fmt.Sprintf("%s captured %d bytes %d newlines", tag, poStreamBytes(tag, "o", nout), nout), []string{tag + "e"})
+			add(tag, "e", nerr)
+			lit(captured, []string{poKey(tag, "e")})
 		case "sh.output":
 			fmt.Fprintf(&b, "    r%d = sh.output(%q)\n    print(\"%s captured %%d bytes %%d newlines\" %% (len(r%d), r%d.count(\"\\n\")))\n", k, shcmd, tag, k, k)
 			lit(shcmd, nil)
 			done = append(done, shcmd)
-			add(tag+"e", nerr, false)
-			lit(fmt.Sprintf("%s captured %d bytes %d newlines", tag, poStreamBytes(tag, "o", nout), nout), []string{tag + "e"})
+			add(tag, "e", nerr)
+			lit(captured, []string{poKey(tag, "e")})
 		case "sh.pipe", "sh.bg": // two processes of ONE shell command at the same time: one writes standard error, the other standard output
 			pa := poProc{Mode: "err", NErr: p.NErr, Blk: p.Blk}
 			pb := poProc{Mode: "out", NOut: p.NOut, Blk: p.Blk}
@@ -247,8 +295,8 @@ func poBody(self string, t poTarget) (string, *poExpect) {
 			fmt.Fprintf(&b, "    sh.exec(%q)\n", c)
 			lit(c, nil)
 			done = append(done, c)
-			add(tag+"ae", p.NErr, false)
-			add(tag+"bo", p.NOut, false)
+			add(tag+"a", "e", p.NErr)
+			add(tag+"b", "o", p.NOut)
 		}
 		done = append(done, mine...)
 		if p.Fail {
@@ -274,11 +322,13 @@ type poEvent struct {
 
 type poRecorder struct {
 	discardEventsT
-	m       sync.Mutex
-	events  []poEvent
-	delay   time.Duration
-	every   int
-	printed int
+	m        sync.Mutex
+	events   []poEvent
+	delay    time.Duration
+	every    int
+	printed  int
+	inflight map[string]int // label -> Print calls that have not returned
+	overlap  map[string]int // label -> times a Print was entered while another one for the same label had not returned
 }
 
 func (r *poRecorder) add(kind string, l *label.Label, text string) {
@@ -288,19 +338,28 @@ func (r *poRecorder) add(kind string, l *label.Label, text string) {
 		s = l.String()
 	}
 	r.events = append(r.events, poEvent{kind, s, text})
-	sleep := false
-	if kind == "Print" {
-		r.printed++
-		sleep = r.every > 0 && r.printed%r.every == 0
+	r.m.Unlock()
+}
+
+func (r *poRecorder) Print(l *label.Label, line string) {
+	s := l.String()
+	r.m.Lock()
+	r.events = append(r.events, poEvent{"Print", s, line})
+	if r.inflight[s] > 0 {
+		r.overlap[s]++
 	}
+	r.inflight[s]++
+	r.printed++
+	sleep := r.every > 0 && r.printed%r.every == 0
 	r.m.Unlock()
 	if sleep {
 		time.Sleep(r.delay) // a consumer that takes its time (a terminal, a log shipper)
 	}
+	r.m.Lock()
+	r.inflight[s]--
+	r.m.Unlock()
 }
-
-func (r *poRecorder) Print(l *label.Label, line string) { r.add("Print", l, line) }
-func (r *poRecorder) TargetUpToDate(l *label.Label)     { r.add("UpToDate", l, "") }
+func (r *poRecorder) TargetUpToDate(l *label.Label) { r.add("UpToDate", l, "") }
 func (r *poRecorder) TargetEvaluating(l *label.Label, reason string, d diff.ValueDiff) {
 	r.add("Evaluating", l, "")
 }
@@ -326,18 +385,19 @@ func TestVerifC18ProcoutChild(t *testing.T) {
 	res := poResult{Stats: map[string]int{}}
 	var build strings.Builder
 	expects := map[string]*poExpect{}
-	var deps []string
+	var deps, labels []string
 	for _, tg := range sc.Targets {
 		body, ex := poBody(self, tg)
 		build.WriteString(body)
 		expects["//:"+tg.Name] = ex
+		labels = append(labels, "//:"+tg.Name)
 		deps = append(deps, fmt.Sprintf("%q", ":"+tg.Name))
 	}
 	fmt.Fprintf(&build, "@target(deps=[%s])\ndef all():\n    pass\n", strings.Join(deps, ", "))
 	os.WriteFile(filepath.Join(dir, "dawn.toml"), nil, 0644)
 	os.WriteFile(filepath.Join(dir, "BUILD.dawn"), []byte(build.String()), 0644)
 
-	rec := &poRecorder{delay: time.Duration(sc.DelayUS) * time.Microsecond, every: sc.Every}
+	rec := &poRecorder{delay: time.Duration(sc.DelayUS) * time.Microsecond, every: sc.Every, inflight: map[string]int{}, overlap: map[string]int{}}
 	proj, err := Load(dir, &LoadOptions{Events: rec, Builtins: starlark.StringDict{"os": starlark_os.Module, "sh": starlark_sh.Module}})
 	if err != nil {
 		t.Fatalf("load: %v", err)
@@ -348,18 +408,23 @@ func TestVerifC18ProcoutChild(t *testing.T) {
 	rec.m.Lock()
 	events := rec.events
 	rec.m.Unlock()
-	say := func(format string, a ...interface{}) {
-		if len(res.Oracles) < 12 {
-			res.Oracles = append(res.Oracles, fmt.Sprintf(format, a...))
+	// Kind "glued": the only thing wrong is that pieces of two producers' output are joined into one line at the boundaries
+	// of the pieces -- every byte of every producer is there once and in order, there are as many lines as newlines, and no
+	// two deliveries were ever in flight together.  Everything else (bytes lost, repeated, foreign; lines outside the window;
+	// streams out of order; concurrent deliveries; a wrong completion) is kind "broken".
+	say := func(kind, format string, a ...interface{}) {
+		if len(res.Oracles) < 14 {
+			res.Oracles = append(res.Oracles, kind+"|"+fmt.Sprintf(format, a...))
 		}
 	}
 	anyFails := false
-	for lbl, ex := range expects {
-		poJudge(lbl, ex, events, say, res.Stats)
+	for _, lbl := range labels {
+		ex := expects[lbl]
+		poJudge(lbl, ex, events, rec.overlap[lbl], say, res.Stats)
 		anyFails = anyFails || ex.fails
 	}
 	if (runErr != nil) != anyFails {
-		say("the build's result is %v but a failing process was %v", runErr, anyFails)
+		say("broken", "the build's result is %v but a failing process was %v", runErr, anyFails)
 	}
 	out, _ := json.Marshal(res)
 	if err := os.WriteFile(resPath, out, 0644); err != nil {
@@ -367,7 +432,7 @@ func TestVerifC18ProcoutChild(t *testing.T) {
 	}
 }
 
-func poJudge(lbl string, ex *poExpect, events []poEvent, say func(string, ...interface{}), stats map[string]int) {
+func poJudge(lbl string, ex *poExpect, events []poEvent, overlaps int, say func(string, string, ...interface{}), stats map[string]int) {
 	// the label's own events
 	var mine []poEvent
 	for _, e := range events {
@@ -376,7 +441,7 @@ func poJudge(lbl string, ex *poExpect, events []poEvent, say func(string, ...int
 		}
 	}
 	if len(mine) < 2 || mine[0].kind != "Evaluating" {
-		say("%s: the first event is not 'evaluating' (%d events)", lbl, len(mine))
+		say("broken", "%s: the first event is not 'evaluating' (%d events)", lbl, len(mine))
 		return
 	}
 	last := mine[len(mine)-1]
@@ -385,8 +450,103 @@ func poJudge(lbl string, ex *poExpect, events []poEvent, say func(string, ...int
 		want = "Failed"
 	}
 	if last.kind != want {
-		say("%s: the last event is %s, want %s (%s)", lbl, last.kind, want, last.text)
+		say("broken", "%s: the last event is %s, want %s (%s)", lbl, last.kind, want, last.text)
 	}
+	if overlaps > 0 {
+		say("broken", "%s: %d times a line was handed to Events.Print while the delivery of another line of the same target had not returned: the target's writer is entered by two goroutines at once, the order of its lines is undefined", lbl, overlaps)
+	}
+
+	// (1) conservation: take away the literal lines (each as often as expected); of what remains, the bytes of the
+	// standard-output alphabet are exactly what the standard-output streams wrote, in order, likewise standard error,
+	// there is no other byte, and there are as many lines as the streams wrote newlines (or unterminated last lines)
+	var restO, restE []byte
+	restLines, foreign := 0, 0
+	litLeft := map[string]int{}
+	for s, n := range ex.lits {
+		litLeft[s] = n
+	}
+	var inner []poEvent
+	for i, e := range mine[1 : len(mine)-1] {
+		if e.kind != "Print" {
+			say("broken", "%s: event %d between evaluating and completion is %s", lbl, i+1, e.kind)
+			continue
+		}
+		inner = append(inner, e)
+		if litLeft[e.text] > 0 {
+			litLeft[e.text]--
+			continue
+		}
+		restLines++
+		for j := 0; j < len(e.text); j++ {
+			switch poClass(e.text[j]) {
+			case 'o':
+				restO = append(restO, e.text[j])
+			case 'e':
+				restE = append(restE, e.text[j])
+			default:
+				foreign++
+			}
+		}
+	}
+	var wantO, wantE []byte
+	wantLines := 0
+	for _, st := range ex.streams {
+		for i := 0; i < st.n; i++ {
+			if st.s == "o" {
+				wantO = append(wantO, poLine(st.tag, st.s, i)...)
+			} else {
+				wantE = append(wantE, poLine(st.tag, st.s, i)...)
+			}
+		}
+		wantLines += st.n
+	}
+	conserved := true
+	differ := func(what string, got, want []byte) {
+		if bytes.Equal(got, want) {
+			return
+		}
+		conserved = false
+		k := 0
+		for k < len(got) && k < len(want) && got[k] == want[k] {
+			k++
+		}
+		ctx := func(b []byte) string {
+			lo, hi := k-30, k+30
+			if lo < 0 {
+				lo = 0
+			}
+			if hi > len(b) {
+				hi = len(b)
+			}
+			if lo > hi {
+				lo = hi
+			}
+			return string(b[lo:hi])
+		}
+		say("broken", "%s: the bytes delivered for %s are not the bytes written: %d delivered, %d written, first difference at byte %d (delivered ...%q..., written ...%q...): output is lost, repeated or reordered", lbl, what, len(got), len(want), k, ctx(got), ctx(want))
+	}
+	differ("standard output", restO, wantO)
+	differ("standard error", restE, wantE)
+	if foreign > 0 {
+		conserved = false
+		say("broken", "%s: %d delivered bytes are not in the alphabet of any producer (an echoed command line or a print joined to other output)", lbl, foreign)
+	}
+	for s, n := range litLeft {
+		if n > 0 {
+			conserved = false
+			say("broken", "%s: line %q was not delivered as a line of its own (%d missing)", lbl, poShort(s), n)
+		}
+	}
+	if restLines != wantLines {
+		conserved = false
+		say("broken", "%s: %d lines delivered for %d newlines (and unterminated last lines) written", lbl, restLines, wantLines)
+	}
+	kind := "broken"
+	if conserved && overlaps == 0 {
+		kind = "glued"
+	}
+
+	// (2) the statement itself: every delivered line is the next line of its stream; streams in the body's order
 	next := map[string]int{}
 	litSeen := map[string]int{}
 	complete := func(k string) bool {
@@ -396,13 +556,8 @@ func poJudge(lbl string, ex *poExpect, events []poEvent, say func(string, ...int
 		return litSeen[k] == ex.lits[k]
 	}
 	started := map[string]bool{}
-	bad := 0
-	order := 0
-	for i, e := range mine[1 : len(mine)-1] {
-		if e.kind != "Print" {
-			say("%s: event %d between evaluating and completion is %s", lbl, i+1, e.kind)
-			continue
-		}
+	bad, order := 0, 0
+	for i, e := range inner {
 		line := e.text
 		key := ""
 		if _, ok := ex.lits[line]; ok {
@@ -410,15 +565,15 @@ func poJudge(lbl string, ex *poExpect, events []poEvent, say func(string, ...int
 			litSeen[line]++
 			if litSeen[line] > ex.lits[line] {
 				bad++
-				say("%s: line %q delivered %d times", lbl, poShort(line), litSeen[line])
+				say(kind, "%s: line %q delivered %d times", lbl, poShort(line), litSeen[line])
 			}
 		} else {
 			k := line
-			if sp := strings.IndexByte(line, ' '); sp >= 0 {
+			if sp := strings.IndexAny(line, ".:"); sp >= 0 {
 				k = line[:sp]
 			}
-			n, ok := ex.count[k]
-			if ok && next[k] < n && line == poLine(k[:len(k)-1], k[len(k)-1:], next[k]) {
+			st, ok := ex.byKey[k]
+			if ok && next[k] < st.n && line == poLine(st.tag, st.s, next[k]) {
 				key = k
 				next[k]++
 			} else {
@@ -426,13 +581,19 @@ func poJudge(lbl string, ex *poExpect, events []poEvent, say func(string, ...int
 				if bad <= 3 {
 					exp := "no such stream"
 					if ok {
-						exp = fmt.Sprintf("the next line of stream %s is number %d of %d", k, next[k], n)
+						exp = fmt.Sprintf("the next line of stream %s is %q, number %d of %d", k, poShort(poLine(st.tag, st.s, next[k]%st.n)), next[k], st.n)
 					}
-					say("%s: delivered line %d, %q, is not the next line of any stream the body wrote (%s)", lbl, i, poShort(line), exp)
+					say(kind, "%s: delivered line %d, %q, is not the next line of any stream the body wrote (%s)", lbl, i, poShort(line), exp)
 				}
 				// resynchronise on the line's own number
-				if ok && len(line) > len(k)+8 {
-					if v, err := strconv.Atoi(line[len(k)+1 : len(k)+8]); err == nil && v+1 <= n {
+				if ok && len(line) >= len(k)+8 {
+					num := []byte(line[len(k)+1 : len(k)+8])
+					for j, c := range num {
+						if c >= 'Q' && c <= 'Z' {
+							num[j] = c - 'Q' + '0'
+						}
+					}
+					if v, err := strconv.Atoi(string(num)); err == nil && v+1 <= st.n {
 						next[k] = v + 1
 					}
 				}
@@ -445,46 +606,41 @@ func poJudge(lbl string, ex *poExpect, events []poEvent, say func(string, ...int
 				if !complete(b) {
 					order++
 					if order <= 2 {
-						say("%s: output %q begins before %q, which the body wrote earlier, is complete", lbl, poShort(key), poShort(b))
+						say("broken", "%s: output %q begins before %q, which the body wrote earlier, is complete", lbl, poShort(key), poShort(b))
 					}
 				}
 			}
 		}
 	}
-	if bad > 3 {
-		say("%s: ... %d lines in all that are torn, spliced, repeated or out of order", lbl, bad)
+	if bad > 0 {
+		if kind == "glued" {
+			say(kind, "%s: %d delivered lines in all are not lines any producer wrote; every byte of every producer is delivered once and in order and there are as many lines as newlines: pieces of two producers' output were joined into one line where the pieces end", lbl, bad)
+		} else {
+			say(kind, "%s: %d delivered lines in all are torn, spliced, repeated or out of order", lbl, bad)
+		}
 	}
-	if bad == 0 {
+	if bad == 0 && conserved {
 		for k, n := range ex.count {
 			if next[k] != n {
-				say("%s: stream %s: %d of %d lines delivered before the completion event", lbl, k, next[k], n)
-			}
-		}
-		for s, n := range ex.lits {
-			if litSeen[s] != n {
-				say("%s: line %q delivered %d times, want %d", lbl, poShort(s), litSeen[s], n)
+				say("broken", "%s: stream %s: %d of %d lines delivered before the completion event", lbl, k, next[k], n)
 			}
 		}
 	}
-	for _, n := range ex.count {
-		stats["lines"] += n
-	}
-	stats["streams"] += len(ex.count)
+	stats["lines"] += wantLines
+	stats["streams"] += len(ex.streams)
 	stats["bad_lines"] += bad
-	// how the two streams of one process were interleaved in what was delivered (coverage only): switches between streams
+	// how the streams were interleaved in what was delivered (coverage only): switches between streams
 	sw, prev := 0, ""
-	for _, e := range mine {
-		if e.kind == "Print" {
-			k := e.text
-			if sp := strings.IndexByte(k, ' '); sp >= 0 {
-				k = k[:sp]
+	for _, e := range inner {
+		k := e.text
+		if sp := strings.IndexAny(k, ".:"); sp >= 0 {
+			k = k[:sp]
+		}
+		if _, ok := ex.count[k]; ok {
+			if prev != "" && prev != k {
+				sw++
 			}
-			if _, ok := ex.count[k]; ok {
-				if prev != "" && prev != k {
-					sw++
-				}
-				prev = k
-			}
+			prev = k
 		}
 	}
 	stats["stream_switches"] += sw
@@ -669,16 +825,34 @@ func TestVerifC18Procout(t *testing.T) {
 	defer w.Flush()
 	for _, v := range verdicts {
 		js, _ := json.Marshal(v.sc)
-		class := "process"
+		shell := false
 		for _, tg := range v.sc.Targets {
 			for _, p := range tg.Procs {
 				if p.Builtin == "sh.pipe" || p.Builtin == "sh.bg" {
-					class = "shell"
+					shell = true
+				}
+			}
+		}
+		// class "shell-glued": a shell command with two processes running at the same time, and the only thing wrong is
+		// that pieces of the two processes' output are joined at piece boundaries; everything else is class "process"
+		class := "process"
+		if shell && v.died == "" && len(v.res.Oracles) > 0 {
+			class = "shell-glued"
+			for _, o := range v.res.Oracles {
+				if !strings.HasPrefix(o, "glued|") {
+					class = "process"
 				}
 			}
 		}
 		for _, o := range v.res.Oracles {
-			fmt.Fprintf(w, "ORACLE\t%s\tC18 output of processes, scenario %q: %s\t%s\n", class, v.sc.Name, o, js)
+			kind, text := o, o
+			if i := strings.IndexByte(o, '|'); i >= 0 {
+				kind, text = o[:i], o[i+1:]
+			}
+			if class == "process" && kind == "glued" && len(v.res.Oracles) > 1 && false {
+				continue
+			}
+			fmt.Fprintf(w, "ORACLE\t%s\tC18 output of processes, scenario %q: %s\t%s\n", class, v.sc.Name, text, js)
 		}
 		if v.died != "" {
 			fmt.Fprintf(w, "ORACLE\t%s\tC18 output of processes, scenario %q: %s\t%s\n", class, v.sc.Name, v.died, js)
